@@ -736,11 +736,25 @@ def run_cert_validity(params, known):
         for (cert, when, seq, ok) in (('valid-early', jan, 11, True), ('valid-early', aug, 12, False), ('valid-late', aug, 13, True), ('valid-late', jan, 14, False)):
             CREATION = (when, seq)
             bundles[(cert, 'jan' if when == jan else 'aug')] = (source_protect('sign1-x5chain', [1], cert_variant=cert), seq, ok)
+        # a bundle of a source without a clock (creation time 0, age block) signed on its way by a forwarding
+        # security source: there is no creation time to judge the certificate at, it is judged now - the
+        # receiver's clock stands at the first days of 2024
+        fwd = dict(node_id=SRC, rx_routes=[('.*', 'forward')], tx_routes=[('.*', 'dtn://next/', None)])
+        for (cert, seq, ok) in (('valid-early', 15, True), ('valid-late', 16, False)):
+            CREATION = (0, seq)
+            world = _bp_world_with_config(fwd, sign=True, include_chain=True, cert_variant=cert)
+            world.receive(B.encode(plain_bundle()))
+            world.quiesce()
+            sent = world.sent()
+            if len(sent) != 1 or world.escaped or not any(b['type'] == B.T_BIB for b in B.decode(sent[0])['blocks']):
+                raise RuntimeError('forwarding security source did not produce one protected bundle: %r %r' % (len(sent), world.escaped[:1]))
+            bundles[(cert, 'no-clock')] = (sent[0], seq, ok)
     finally:
         CREATION = (760000000000, 3)
-    names = sorted(bundles)
     count = 0
-    for order in itertools.permutations(names):
+    groups = [sorted(n for n in bundles if n[1] != 'no-clock'),
+              sorted(n for n in bundles if n[1] == 'no-clock') + [('valid-early', 'jan'), ('valid-late', 'aug')]]
+    for order in [o for names in groups for o in itertools.permutations(names)]:
         count += 1
         world = verifier('right', True)
         case = dict(order=['%s/%s' % n for n in order])
@@ -748,7 +762,7 @@ def run_cert_validity(params, known):
             world.receive(bundles[name][0])
             world.quiesce()
         got = sorted(d['ts'][1] for d in world.probe.seen)
-        want = sorted(seq for (_d, seq, ok) in bundles.values() if ok)
+        want = sorted(bundles[n][1] for n in order if bundles[n][2])
         keys.append('/'.join(case['order']))
         found = None
         if world.escaped:
@@ -888,6 +902,13 @@ def evidence(tier, seed, scens, results, wall_s):
 
 def replay_case(body, verbose=False):
     case = body['case']
+    if case.get('alteration') == 'certificate validity':
+        # keys and certificates are derived from fixed values: the scenario itself is run again
+        res = run_cert_validity(dict(name='sign1-certificate-validity', pems=make_pems()), None)
+        for v in res['violations']:
+            print('%s: %s' % (v['kind'], v['detail'][:400]))
+        print('%d orders, %d kinds of violation' % (res['evaluations'], len(res['violations'])))
+        return 1 if res['violations'] else 0
     data = bytes.fromhex(case['protected'])
     alt = bytes.fromhex(case['altered'])
     orig = B.decode(data)
